@@ -11,6 +11,7 @@ import (
 	"path/filepath"
 
 	golog "github.com/fclairamb/go-log"
+	"github.com/spf13/afero"
 	"github.com/pojntfx/stfs/pkg/cache"
 	"github.com/pojntfx/stfs/pkg/config"
 	"github.com/pojntfx/stfs/pkg/fs"
@@ -83,6 +84,15 @@ type Fault struct {
 	Mode string `json:"mode,omitempty"`
 }
 
+// Handle is an open file handle kept across calls of a history.
+type Handle struct {
+	F      afero.File
+	Path   string
+	Flags  int
+	Reads  int
+	Writes int
+}
+
 type WriteRec struct {
 	Off int64 `json:"off"`
 	N   int   `json:"n"`
@@ -113,6 +123,8 @@ type Stack struct {
 	ReadBudget int // 0 = unlimited
 	BudgetExceeded bool
 	OpenCaches int
+
+	Handles map[int]*Handle
 
 	// signed-header recording (C08)
 	OnWriteHeader func(ev *config.HeaderEvent)
@@ -335,7 +347,17 @@ func NewStack(dir string, cfg Config, keys *Keys) (*Stack, error) {
 	s.Backend = config.BackendConfig{
 		GetWriter: func() (config.DriveWriterConfig, error) {
 			if s.event("backend.GetWriter") {
-				return config.DriveWriterConfig{}, ErrInjected
+				// make the real open fail: the drive path is a directory for this one call
+				tmp := s.Drive + ".away"
+				_ = os.Rename(s.Drive, tmp)
+				_ = os.Mkdir(s.Drive, 0o755)
+				w, err := s.TM.GetWriter()
+				_ = os.Remove(s.Drive)
+				_ = os.Rename(tmp, s.Drive)
+				if err == nil {
+					return w, errors.New("verif: expected the open to fail")
+				}
+				return w, err
 			}
 			w, err := s.TM.GetWriter()
 			if err != nil {
@@ -353,7 +375,17 @@ func NewStack(dir string, cfg Config, keys *Keys) (*Stack, error) {
 		},
 		GetReader: func() (config.DriveReaderConfig, error) {
 			if s.event("backend.GetReader") {
-				return config.DriveReaderConfig{}, ErrInjected
+				// make the real open fail: the drive path does not exist for this one call
+				// (only effective if the manager has to reopen; a reused reader does not open anything)
+				tmp := s.Drive + ".away"
+				_ = os.Rename(s.Drive, tmp)
+				r, err := s.TM.GetReader()
+				_ = os.Rename(tmp, s.Drive)
+				if err == nil {
+					s.Fired = false // nothing failed
+					return config.DriveReaderConfig{Drive: &driveReader{s: s, f: r.Drive}, DriveIsRegular: r.DriveIsRegular}, nil
+				}
+				return r, err
 			}
 			r, err := s.TM.GetReader()
 			if err != nil {
